@@ -1,6 +1,6 @@
 """C18 representation accessors: pure projections (R-PROJ); more clauses (scale extension exact,
 type-level witnesses) are attached by the R-SCALE layer and the witness crate."""
-from rules import proj, scale
+from rules import proj, scale, normalform
 from props import exact
 
 
@@ -9,7 +9,7 @@ def run(ctx):
     rep.explanation = ('Static MIR analysis. R-PROJ: for each constructor / accessor / view in tables/projection_spec.json the body is a single '
                        'unconditional path whose returned term - after inlining single-path local helpers and dropping borrows - is exactly the '
                        'specified projection of the inputs (e.g. to_ref = {sign: int_val.sign(), digits: int_val.magnitude(), scale: scale}); no '
-                       'arithmetic, no other call. NOT decided: digits()\' loop (count_decimal_digits_uint), ten_to_the*, normalized().')
+                       'arithmetic, no other call. NORMAL-FORM: normalized() removes k trailing zero digits and lowers the scale by the same k (k counted from the least-significant end with `== 0`), radix 10 both ways, zero -> zero(). NOT decided: digits()\' loop (count_decimal_digits_uint), the chunked branch of ten_to_the*, num-bigint\'s radix conversion.')
     F = ctx.facts('default', 'rel')
     n = proj.check(rep, F)
     rep.floor('projection API items', n, 22)
@@ -18,6 +18,8 @@ def run(ctx):
     rep.floor('rescale primitives (extension exact)', nr, 4)
     nph = exact.power_helpers(rep, F)
     rep.floor('power-of-ten helpers', nph, 3)
+    nn = normalform.check(rep, F)
+    rep.floor('normalized() table rows', nn, 2)
     rep.trust('num-bigint: BigInt::sign / magnitude / from_biguint are the exact sign-magnitude decomposition')
     if ctx.tier == 'thorough':
         from rules import witness
